@@ -46,7 +46,7 @@ def explicitFace (a : Args) : Option Nat :=
 def ribRegister (st : St) (ext : Ext) (inFace : Nat) (name : Name) (p : Params) : St × Resp :=
   if !hasParams name then (st, r400) else
   match p with
-  | .undecodable => (st, r400)
+  | .undecodable | .filter _ | .app _ => (st, r400)
   | .args a =>
     match a.name with
     | none => (st, r400)
@@ -65,7 +65,7 @@ def ribRegister (st : St) (ext : Ext) (inFace : Nat) (name : Name) (p : Params) 
 def ribUnregister (st : St) (ext : Ext) (inFace : Nat) (name : Name) (p : Params) : St × Resp :=
   if !hasParams name then (st, r400) else
   match p with
-  | .undecodable => (st, r400)
+  | .undecodable | .filter _ | .app _ => (st, r400)
   | .args a =>
     match a.name with
     | none => (st, r400)
@@ -75,10 +75,17 @@ def ribUnregister (st : St) (ext : Ext) (inFace : Nat) (name : Name) (p : Params
       ({ st with rib := ribRemove st.rib n faceID origin, fib := ext.fibAfter },
        .ctrl 200 { name := some n, faceId := some faceID, origin := some origin })
 
-/-- rib/announce: never changes anything; every outcome is a 4xx/5xx answer. The harness never
-    attaches application parameters, so the explored outcome is always 400 (a well-formed
-    PrefixAnnouncement would get 501). -/
-def ribAnnounce (st : St) (_name : Name) : St × Resp := (st, .ctrl 400 noArgs)
+/-- rib/announce: never changes anything. 400 unless the name is exactly prefix/rib/announce/<digest>
+    and the application parameters hold a Data packet; then 501 (not supported). -/
+def ribAnnounce (st : St) (name : Name) (p : Params) : St × Resp :=
+  if name.length != 5 then (st, .ctrl 400 noArgs) else
+  match name[4]? with
+  | none => (st, .ctrl 400 noArgs)
+  | some c =>
+    if c.typ != 2 then (st, .ctrl 400 noArgs) else
+    match p with
+    | .app .data => (st, .ctrl 501 noArgs)
+    | _ => (st, .ctrl 400 noArgs)
 
 def ribList (st : St) (name : Name) : St × Resp :=
   if name.length > 4 then (st, .none)
@@ -91,7 +98,7 @@ def ribModule (st : St) (ext : Ext) (inFace : Nat) (name : Name) (p : Params) : 
     match wordOf verb with
     | .register => ribRegister st ext inFace name p
     | .unregister => ribUnregister st ext inFace name p
-    | .announce => ribAnnounce st name
+    | .announce => ribAnnounce st name p
     | .list => ribList st name
     | _ => (st, .ctrl 501 noArgs)
 
@@ -100,7 +107,7 @@ def ribModule (st : St) (ext : Ext) (inFace : Nat) (name : Name) (p : Params) : 
 def fibAdd (st : St) (inFace : Nat) (name : Name) (p : Params) : St × Resp :=
   if !hasParams name then (st, r400) else
   match p with
-  | .undecodable => (st, r400)
+  | .undecodable | .filter _ | .app _ => (st, r400)
   | .args a =>
     match a.name with
     | none => (st, r400)
@@ -117,7 +124,7 @@ def fibAdd (st : St) (inFace : Nat) (name : Name) (p : Params) : St × Resp :=
 def fibRemoveCmd (st : St) (inFace : Nat) (name : Name) (p : Params) : St × Resp :=
   if !hasParams name then (st, r400) else
   match p with
-  | .undecodable => (st, r400)
+  | .undecodable | .filter _ | .app _ => (st, r400)
   | .args a =>
     match a.name with
     | none => (st, r400)
@@ -171,7 +178,7 @@ def checkStrategy (s : Name) : Except Nat Name :=
 def scSetCmd (st : St) (name : Name) (p : Params) : St × Resp :=
   if !hasParams name then (st, r400) else
   match p with
-  | .undecodable => (st, r400)
+  | .undecodable | .filter _ | .app _ => (st, r400)
   | .args a =>
     match a.name with
     | none => (st, r400)
@@ -187,7 +194,7 @@ def scSetCmd (st : St) (name : Name) (p : Params) : St × Resp :=
 def scUnsetCmd (st : St) (name : Name) (p : Params) : St × Resp :=
   if !hasParams name then (st, r400) else
   match p with
-  | .undecodable => (st, r400)
+  | .undecodable | .filter _ | .app _ => (st, r400)
   | .args a =>
     match a.name with
     | none => (st, r400)
@@ -215,7 +222,7 @@ def scModule (st : St) (name : Name) (p : Params) : St × Resp :=
 def csConfig (st : St) (name : Name) (p : Params) : St × Resp :=
   if !hasParams name then (st, r400) else
   match p with
-  | .undecodable => (st, r400)
+  | .undecodable | .filter _ | .app _ => (st, r400)
   | .args a =>
     if a.flags.isSome != a.mask.isSome then (st, .ctrl 409 noArgs) else
     match a.capacity with
@@ -258,7 +265,6 @@ def statusModule (st : St) (name : Name) : St × Resp :=
 /-- smallest MTU management accepts (fix F-17b): strictly more than the largest per-frame
     overhead `sendPacket` reserves (60 with a forwarder PIT token), so every fragment carries payload -/
 def minMtu : Nat := 64
-def maxPacket : Nat := 8800
 
 
 /-- `fillFaceProperties` minus Uri/LocalUri (face update response) -/
@@ -282,7 +288,7 @@ def faceAfter (f : Face) (a : Args) : Face :=
 def faceUpdate (st : St) (inFace : Nat) (name : Name) (p : Params) : St × Resp :=
   if !hasParams name then (st, r400) else
   match p with
-  | .undecodable => (st, r400)
+  | .undecodable | .filter _ | .app _ => (st, r400)
   | .args a =>
     let faceID := pickFace a inFace
     match faceGet st.faces faceID with
@@ -296,14 +302,54 @@ def faceUpdate (st : St) (inFace : Nat) (name : Name) (p : Params) : St × Resp 
 def faceDestroy (st : St) (ext : Ext) (name : Name) (p : Params) : St × Resp :=
   if !hasParams name then (st, r400) else
   match p with
-  | .undecodable => (st, r400)
+  | .undecodable | .filter _ | .app _ => (st, r400)
   | .args a =>
     match a.faceId with
     | none => (st, r400)
     | some f =>
       if (faceGet st.faces f).isSome then
-        ({ st with faces := faceRemove st.faces f, rib := ext.ribAfter, fib := ext.fibAfter }, .ctrl 200 a)
+        ({ st with faces := faceRemove st.faces f, rib := ribCleanFace st.rib f, fib := ext.fibAfter }, .ctrl 200 a)
       else (st, .ctrl 200 a)
+
+/-- the part of create after the URI has been recognised as a unicast UDP/TCP URI -/
+def createOn (st : St) (a : Args) (c : UriClass) (canon : String) : St × Resp :=
+  if !flagsMaskOk a.flags a.mask then (st, .ctrl 409 noArgs) else
+  if !mtuOk a.mtu then (st, .ctrl 406 noArgs) else                                   -- F-17b
+  match st.faces.find? (fun f => f.uri == canon) with
+  | some ex => (st, .ctrl 409 (faceFullProps ex))
+  | none =>
+    if !createPersOk a.pers then (st, .ctrl 406 noArgs) else
+    ({ st with faces := st.faces ++ [newFace st.nextFace c canon a], nextFace := st.nextFace + 1 },
+     .ctrl 200 (faceFullProps (newFace st.nextFace c canon a)))
+
+/-- faces/create. The URI handling of fw/defn/uri.go (regular expressions, DNS) is not modelled:
+    `uriClass` knows the finite set of strings the generator uses; for any other string the answer
+    below (406) is a placeholder that the driver does not compare and the specification leaves
+    open (`validity = .either`). -/
+def faceCreate (st : St) (name : Name) (p : Params) : St × Resp :=
+  if !hasParams name then (st, r400) else
+  match p with
+  | .undecodable | .filter _ | .app _ => (st, r400)
+  | .args a =>
+    match a.uri with
+    | none => (st, r400)
+    | some u =>
+      match uriClass u with
+      | none => (st, .ctrl 406 noArgs)
+      | some .early => (st, .ctrl 406 noArgs)
+      | some .late =>
+        if !flagsMaskOk a.flags a.mask then (st, .ctrl 409 noArgs) else (st, .ctrl 406 noArgs)
+      | some (.udp canon) => createOn st a (.udp canon) canon
+      | some (.tcp canon) => createOn st a (.tcp canon) canon
+
+/-- faces/query: silently ignored without a decodable filter (fix F-17g: a component without a
+    FaceQueryFilter element used to be dereferenced as nil) -/
+def faceQuery (st : St) (name : Name) (p : Params) : St × Resp :=
+  if !hasParams name then (st, .none) else
+  match p with
+  | .filter q =>
+    ({ st with vFaces := st.vFaces + 1 }, .dataset name "faces/query" st.vFaces (.query q (st.faces.filter (filterMatch q))))
+  | _ => (st, .none)
 
 def faceList (st : St) (name : Name) : St × Resp :=
   if name.length > 4 then (st, .none)
@@ -318,8 +364,8 @@ def facesModule (st : St) (ext : Ext) (inFace : Nat) (name : Name) (p : Params) 
     | .update => faceUpdate st inFace name p
     | .destroy => faceDestroy st ext name p
     | .list => faceList st name
-    | .create => (st, .none)   -- not generated; see design/C17.md
-    | .query => (st, .none)    -- not generated; see design/C17.md
+    | .create => faceCreate st name p
+    | .query => faceQuery st name p
     | _ => (st, .ctrl 501 noArgs)
 
 /-! ### Thread.Run (fw/mgmt/thread.go) -/
@@ -391,17 +437,19 @@ def sendOutcome (mtu : Nat) (frag : Bool) (tokLen : Nat) (inFaceInd hasMark : Bo
 /-! ### Initial state of a history (the harness world) -/
 
 def mkHook (id : Nat) (uri : String) (isLocal : Bool) (lf : Bool) : Face :=
-  { id := id, uri := uri, rscheme := "udp4", lscheme := "udp4", isLocal := isLocal, pers := 0, mtu := 8800, ndnlp := true,
+  { id := id, uri := uri, luri := (if isLocal then "udp4://127.0.0.1:6363" else "udp4://192.0.2.2:6363"), rscheme := "udp4", lscheme := "udp4", isLocal := isLocal, pers := 0, mtu := 8800, ndnlp := true,
     localFields := lf, congMark := false, bcmi := 100000000, dct := 65536 }
 
 def initFaces : List Face :=
-  [ { id := 1, uri := "internal://", rscheme := "internal", lscheme := "internal", isLocal := true, pers := 0, mtu := 8800,
+  [ { id := 1, uri := "internal://", luri := "internal://", rscheme := "internal", lscheme := "internal", isLocal := true, pers := 0, mtu := 8800,
       ndnlp := true, localFields := true, congMark := false, bcmi := 100000000, dct := 65536 },
     mkHook 2 "udp4://127.0.0.1:7001" true true,
     mkHook 3 "udp4://127.0.0.1:7002" true false,
     mkHook 4 "udp4://192.0.2.10:6363" false false,
     mkHook 5 "udp4://192.0.2.11:6363" false true,
-    mkHook 6 "udp4://127.0.0.1:7009" true false ]
+    mkHook 6 "udp4://127.0.0.1:7009" true false,
+    { id := 7, uri := "null://", luri := "null://", rscheme := "null", lscheme := "null", isLocal := false, pers := 2,
+      mtu := 8800, ndnlp := false, localFields := false, congMark := false, bcmi := 0, dct := 0 } ]
 
 def init (lh : Bool) : St :=
   { lh := lh, faces := initFaces, rib := [],
